@@ -907,8 +907,8 @@ func (x *c06Ctx) oracle(views []c06NodeView, participants []*vfdNode, exp c06Exp
 			}
 			lo, okLo := tm.FirstRespIn[v.nd.addr]
 			hi := v.nd.tap.finishedEntered(x.epoch)
-			if !okLo || hi.IsZero() || g.TransitionTime <= exp.genesis {
-				continue
+			if !okLo || hi.IsZero() || lo.Unix() < exp.genesis {
+				continue // (reshares are issued after genesis; before it no round is current)
 			}
 			sampled := c06Round(g.TransitionTime, exp.period, exp.genesis) - 10
 			rLo := c06Round(lo.Unix(), exp.period, exp.genesis)
